@@ -1,0 +1,40 @@
+//go:build verif
+
+package codegen
+
+import "sort"
+
+// VerifNamer exposes the HLSL namer to the verification harness.
+type VerifNamer struct{ n *namer }
+
+func NewVerifNamer() *VerifNamer                   { return &VerifNamer{n: newNamer()} }
+func (v *VerifNamer) Call(label string) string     { return v.n.call(label) }
+func (v *VerifNamer) Sanitize(label string) string { return v.n.sanitize(label) }
+func (v *VerifNamer) Reserve(label string)         { v.n.reserve(label) }
+func (v *VerifNamer) Namespace(body func())        { v.n.namespace(body) }
+func (v *VerifNamer) Reset()                       { v.n.reset() }
+func (v *VerifNamer) IsKeyword(s string) bool      { return v.n.isKeyword(s) }
+
+// VerifPreReserved returns the base names registered by newNamer before any call.
+func VerifPreReserved() []string {
+	n := newNamer()
+	out := make([]string, 0, len(n.unique))
+	for k := range n.unique {
+		out = append(out, k)
+	}
+	sort.Strings(out)
+	return out
+}
+
+// VerifKeywords returns the case-sensitive and case-insensitive keyword tables, sorted.
+func VerifKeywords() (sensitive, insensitive []string) {
+	for k := range reservedKeywords {
+		sensitive = append(sensitive, k)
+	}
+	for k := range caseInsensitiveKeywords {
+		insensitive = append(insensitive, k)
+	}
+	sort.Strings(sensitive)
+	sort.Strings(insensitive)
+	return
+}
